@@ -12,7 +12,7 @@
    about SHA-256 or JSON. *)
 From Coq Require Import List NArith Bool Permutation.
 Import ListNotations.
-From Oras Require Import Model.GraphMem Model.GraphStore Proofs.GraphMem Proofs.GraphStore.
+From Oras Require Import Base.Prelude Generated.GC07 Model.GraphMem Model.GraphStore Model.IndexLTS Proofs.GraphMem Proofs.GraphStore Proofs.IndexLTS.
 
 (* The invariants written in the comments of graph.Memory hold after every history of
    Index / Remove / IndexAll / fresh-graph operations, with content appearing in and
@@ -194,6 +194,57 @@ Example C07_store_history_fixed_example :
   let r := orun true (ctab pf_ct) pf_isman 50 empty_store pf_ops in
   snd r = true /\ o_blobs (fst r) = [2; 0]%N /\ predecessors (o_graph (fst r)) 0%N = [2%N].
 Proof. exact store_history_fixed_example. Qed.
+
+(* ---- persistence of the index under concurrency (Model/IndexLTS.v) ----
+   Concurrent Push / Tag / Untag each do: storage+graph step, resolver update, saveIndex.
+   With saveIndex atomic w.r.t. its snapshot of the resolver map (snapshot and write under
+   indexLock, the code as it is), for EVERY interleaving that runs all operations to
+   completion the index.json on disk is the final resolver map. *)
+Theorem C07_save_index_atomic_quiescent :
+  forall res acts trace s',
+    lrun true (linit res acts) trace = Some s' -> all_done s' = true ->
+    l_disk s' = l_res s'.
+Proof. exact save_index_atomic_quiescent. Qed.
+Print Assumptions C07_save_index_atomic_quiescent.
+
+(* the same for the critical section of Store.saveIndex as re-read from content/oci/oci.go on
+   this run ([save_index_atomic] is computed from Generated.GC07.calls_saveIndex): this is the
+   statement that stops compiling when the snapshot moves out of the lock *)
+Theorem C07_save_index_quiescent_src :
+  forall res acts trace s',
+    lrun save_index_atomic (linit res acts) trace = Some s' -> all_done s' = true ->
+    l_disk s' = l_res s'.
+Proof. exact save_index_quiescent_src. Qed.
+Print Assumptions C07_save_index_quiescent_src.
+
+(* hence a store reopened from that index.json answers every Predecessors query like the
+   live graph *)
+Theorem C07_concurrent_save_then_reload :
+  forall content sok fuel res acts trace s' g g',
+    lrun true (linit res acts) trace = Some s' -> all_done s' = true ->
+    Inv content g ->
+    (forall p, In p (g_nodes g) -> sok p = true) ->
+    (forall p, sok p = true -> content p <> [] -> In p (g_nodes g)) ->
+    (forall p, In p (g_nodes g) -> content p <> [] -> In p (l_res s')) ->
+    load content sok fuel (l_disk s') = (g', true) ->
+    forall n, Permutation (predecessors g' n) (predecessors g n).
+Proof. exact concurrent_save_then_reload. Qed.
+Print Assumptions C07_concurrent_save_then_reload.
+
+(* With the critical section narrowed to the write (snapshot outside indexLock) two
+   concurrent pushes can leave a resolver entry out of index.json: the older snapshot is
+   written last.  (The harness's "burst" stream looks for exactly this on the real store.) *)
+Theorem C07_save_index_split_refuted :
+  exists res acts trace s',
+    lrun false (linit res acts) trace = Some s' /\ all_done s' = true /\
+    exists e, In e (l_res s') /\ ~ In e (l_disk s').
+Proof. exact save_index_split_refuted. Qed.
+Print Assumptions C07_save_index_split_refuted.
+
+Example C07_save_index_atomic_example :
+  exists s', lrun true (linit [] [ActAdd 1%N; ActAdd 2%N]) [0; 0; 1; 1; 1; 0]%nat = Some s' /\
+             all_done s' = true /\ l_disk s' = [2; 1]%N.
+Proof. exact save_index_atomic_example. Qed.
 
 (* IndexAll / loadIndex / gcIndex terminate: for every finite universe closed under
    [content] and containing the roots (any shape, cycles included) some fuel completes
